@@ -87,7 +87,9 @@ def _case(draw):
             # stream: idle receive time-outs (only taken at points where that connection has no partial frame pending);
             # datagram: which datagrams arrive back to back, before the server gets a turn
             'idle': draw(st.lists(st.integers(0, 30), min_size=0, max_size=3)),
-            'burst': draw(st.lists(st.booleans(), min_size=0, max_size=12))}
+            'burst': draw(st.lists(st.booleans(), min_size=0, max_size=12)),
+            # datagram variant: consecutive requests of one peer that travel in ONE datagram
+            'pack': draw(st.lists(st.booleans(), min_size=0, max_size=8))}
 
 
 def strategy(tier):
@@ -103,7 +105,13 @@ def _script(case):
         fs = [refframe.build(framing, r['uid'], bytes.fromhex(r['pdu']), r['tid'], 0) for r in c['requests']]
         frames.append(fs)
         if c['cuts'] == ['frames']:
-            per_conn_chunks.append(list(fs))
+            packed, pk = [], list(case.get('pack') or [])
+            for i_, f_ in enumerate(fs):
+                if packed and i_ - 1 < len(pk) and pk[i_ - 1]:
+                    packed[-1] = packed[-1] + f_          # two whole requests in one datagram
+                else:
+                    packed.append(f_)
+            per_conn_chunks.append(packed)
         else:
             per_conn_chunks.append([x for x in gens.apply_cuts(b''.join(fs), c['cuts'])])
     # merge: take next chunk of the named connection; afterwards drain the rest round-robin
